@@ -200,10 +200,12 @@ def run_wire(pid, tier, seed, replay):
                     jobs.append((["gen-wire", "--profile", prof, "--count", 15, "--seed", seed * 100 + 40 + 10 * k + i, "--seg", "pairs"],
                                  "WireTrace", "wire-pairs-%s-%d.ndjson" % (prof, k), "decoder streams %s, all pairs of cuts" % prof, None))
     if pid in ("C09", "C12", "C13", "C11"):
-        profs = {"C09": ["tpipeline", "todd", "toversize", "tunimpl"], "C12": ["tpipeline", "tquit", "tunimpl", "todd"],
+        profs = {"C09": ["tpipeline", "todd", "toversize", "tunimpl", "twrap"], "C12": ["tpipeline", "tquit", "tunimpl", "todd"],
                  "C13": ["toversize", "tbig", "tpipeline"], "C11": ["tpipeline", "tunimpl", "toversize"]}[pid]
         for i, prof in enumerate(profs):
             cnt = (10 if pid != "C13" else 14) * n
+            if prof == "twrap":
+                cnt = 4 * n         # (frames of 64 KiB .. 1 MiB)
             jobs.append((["tcp-wire", "--profile", prof, "--count", cnt, "--seed", seed * 100 + 50 + i, "--seg", "single" if quick else "all"],
                          "WireTcpTrace", "tcp-%s.ndjson" % prof, "socket streams %s" % prof, ports(1 + i)))
     if pid in ("C11", "C12"):
